@@ -186,6 +186,16 @@ func runC01(c *Ctx) {
 	if watPk == nil || wir == nil || cw == nil {
 		return
 	}
+	c01Helpers = map[*types.Func]*ast.FuncDecl{}
+	for _, f := range wir.Syntax {
+		for _, d := range f.Decls {
+			if fd, ok := d.(*ast.FuncDecl); ok && fd.Body != nil {
+				if fn, ok := wir.TypesInfo.Defs[fd.Name].(*types.Func); ok {
+					c01Helpers[fn] = fd
+				}
+			}
+		}
+	}
 
 	// ---- (1) formatters
 	ctorMnemonic := map[string]map[string]string{} // constructor -> wat type ("" for fixed) -> mnemonic
@@ -627,12 +637,49 @@ func pushOrder(stmts []ast.Stmt) string {
 // maskedOnAllPaths: the arm contains, at its top level, `if ret_type.Equal(m.<kind>) { ...NewInstConst(I32, cst); NewInstAnd(I32) }`
 // (possibly as an else-if), after the operation.
 func maskedOnAllPaths(info *types.Info, stmts []ast.Stmt, kind, cst string) bool {
+	return maskedOnAllPathsVar(info, stmts, kind, cst, "ret_type", "insts", 0)
+}
+
+// c01Helpers maps the functions of the package under analysis to their declarations, so that a mask emitted by a
+// helper (`insts = append(insts, m.helper(ret_type)...)`) is found in the helper's body.
+var c01Helpers map[*types.Func]*ast.FuncDecl
+
+func maskedOnAllPathsVar(info *types.Info, stmts []ast.Stmt, kind, cst, typeVar, target string, depth int) bool {
 	for _, s := range stmts {
+		// delegation to a helper that receives the result type
+		if as, isAs := s.(*ast.AssignStmt); isAs && depth < 2 && len(as.Rhs) == 1 {
+			if app, isCall := as.Rhs[0].(*ast.CallExpr); isCall && types.ExprString(app.Fun) == "append" && len(app.Args) == 2 && app.Ellipsis.IsValid() {
+				if hc, isHC := ast.Unparen(app.Args[1]).(*ast.CallExpr); isHC {
+					if fd := c01Helpers[CalleeOf(info, hc)]; fd != nil && fd.Body != nil {
+						// which parameter carries the type, which variable collects the instructions
+						var params []string
+						for _, f := range fd.Type.Params.List {
+							for _, nm := range f.Names {
+								params = append(params, nm.Name)
+							}
+						}
+						tv := ""
+						for i, a := range hc.Args {
+							if types.ExprString(a) == typeVar && i < len(params) {
+								tv = params[i]
+							}
+						}
+						tgt := "insts"
+						if fd.Type.Results != nil && len(fd.Type.Results.List) > 0 && len(fd.Type.Results.List[0].Names) > 0 {
+							tgt = fd.Type.Results.List[0].Names[0].Name
+						}
+						if tv != "" && maskedOnAllPathsVar(info, fd.Body.List, kind, cst, tv, tgt, depth+1) {
+							return true
+						}
+					}
+				}
+			}
+		}
 		ifs, ok := s.(*ast.IfStmt)
 		for ok && ifs != nil {
-			ks := condKinds(ifs.Cond, "ret_type")
+			ks := condKinds(ifs.Cond, typeVar)
 			if len(ks) == 1 && ks[0] == kind {
-				ctors := appendedCtors(info, ifs.Body.List, "insts", false)
+				ctors := appendedCtors(info, ifs.Body.List, target, false)
 				if len(ctors) == 2 && ctors[0].Name == "wat.NewInstConst" && len(ctors[0].Args) == 2 && ctors[0].Args[1] == `"`+cst+`"` && ctors[1].Name == "wat.NewInstAnd" {
 					return true
 				}
